@@ -90,4 +90,5 @@ NoCrash == pass # "crashed"
 \* has brought the total down to the low-water mark
 DownToLow == (rc = -1 /\ ev = <<>> /\ ~dirty /\ pass = "idle") => Alloc <= Low
 FewEv == Len(ev) <= 4
+FewEv3 == Len(ev) <= 3
 =============================================================================
